@@ -287,6 +287,119 @@ func discoverCase(c *vlib.Cases, pf *profile.Factory, epType string, rounds []ro
 	c.Emit(map[string]any{"kind": "discover", "type": epType, "rounds": rounds, "impl": map[string]any{"obs": out}})
 }
 
+// discoverRoundCase: a whole discovery round (DiscoverAll, what the periodic loop and start-up run) over several endpoints
+// with model_discovery.concurrent_workers = workers; in the middle round each endpoint answers with its own class of
+// listing. The round must return, and afterwards a round of good listings must be taken up by every endpoint.
+func discoverRoundCase(c *vlib.Cases, pf *profile.Factory, workers int, classes []string) {
+	log := vlib.QuietLogger()
+	n := len(classes)
+	bes := make([]*stack.Backend, n)
+	cur := make([][]byte, n)
+	status := make([]int, n)
+	var mu sync.Mutex
+	var cfgs []config.EndpointConfig
+	for i := 0; i < n; i++ {
+		i := i
+		bes[i] = stack.NewBackend(fmt.Sprintf("R%d", i))
+		defer bes[i].Close()
+		bes[i].Listing = func(string) (int, string) {
+			mu.Lock()
+			defer mu.Unlock()
+			return status[i], string(cur[i])
+		}
+		pr := 100 - i
+		cfgs = append(cfgs, config.EndpointConfig{URL: bes[i].URL(), Name: bes[i].Name, Type: "openai", Priority: &pr,
+			HealthCheckURL: "/health", ModelURL: "/v1/models", CheckInterval: 5 * time.Second, CheckTimeout: 2 * time.Second})
+	}
+	repo := discovery.NewStaticEndpointRepositoryWithFactory(pf)
+	if err := repo.LoadFromConfig(context.Background(), cfgs); err != nil {
+		c.Emit(map[string]any{"kind": "discover-round", "workers": workers, "classes": classes, "impl": map[string]any{"setup_err": err.Error()}})
+		return
+	}
+	eps, _ := repo.GetAll(context.Background())
+	byName := map[string]*domain.Endpoint{}
+	for _, e := range eps {
+		cp := *e
+		cp.Status = domain.StatusHealthy
+		repo.UpdateEndpoint(context.Background(), &cp)
+		byName[e.Name] = e
+	}
+	var reg domain.ModelRegistry = registry.NewUnifiedMemoryModelRegistry(log, &config.UnificationConfig{Enabled: true, CacheTTL: time.Minute}, nil, nil)
+	client := discovery.NewHTTPModelDiscoveryClientWithDefaults(pf, log)
+	svc := discovery.NewModelDiscoveryService(client, repo, reg, discovery.DiscoveryConfig{Interval: time.Hour, Timeout: 3 * time.Second, ConcurrentWorkers: workers, RetryAttempts: 1, RetryBackoff: time.Millisecond}, log)
+	vlib.Breadcrumb(map[string]any{"kind": "discover-round", "workers": workers, "classes": classes})
+	set := func(round int) {
+		mu.Lock()
+		defer mu.Unlock()
+		for i := 0; i < n; i++ {
+			status[i] = 200
+			names := []string{fmt.Sprintf("m%d-r%d", i, round), "shared"}
+			cl := "good"
+			if round == 1 {
+				cl = classes[i]
+			}
+			switch cl {
+			case "good":
+				cur[i] = listingFor("openai", names, nil)
+			case "garbage":
+				cur[i] = []byte("<html>502 Bad Gateway</html>\x00\xff")
+			case "truncated":
+				full := listingFor("openai", names, nil)
+				cur[i] = full[:len(full)/2]
+			case "http500":
+				status[i], cur[i] = 500, []byte(`{"error":"boom"}`)
+			case "emptybody":
+				cur[i] = nil
+			case "wrongtype":
+				cur[i] = []byte(`{"models":"nope","data":42,"object":[1,2,3]}`)
+			}
+		}
+	}
+	type robs struct {
+		Returned bool       `json:"returned"`
+		Guard    guard      `json:"guard"`
+		Names    [][]string `json:"names"`
+	}
+	var out []robs
+	for round := 0; round < 3; round++ {
+		set(round)
+		var o robs
+		ctx, cancel := context.WithTimeout(context.Background(), 10*time.Second)
+		done := make(chan struct{})
+		go func() {
+			defer func() {
+				if r := recover(); r != nil {
+					o.Guard.Panic = fmt.Sprint(r)
+				}
+				close(done)
+			}()
+			_ = svc.DiscoverAll(ctx)
+		}()
+		select {
+		case <-done:
+			o.Returned = true
+		case <-time.After(6 * time.Second):
+			o.Guard.Timeout = true
+		}
+		cancel()
+		time.Sleep(30 * time.Millisecond) // async unification settles
+		for i := 0; i < n; i++ {
+			ms, _ := reg.GetModelsForEndpoint(context.Background(), byName[bes[i].Name].URLString)
+			names := []string{}
+			for _, m := range ms {
+				names = append(names, m.Name)
+			}
+			sort.Strings(names)
+			o.Names = append(o.Names, names)
+		}
+		out = append(out, o)
+		if !o.Returned {
+			break
+		}
+	}
+	c.Emit(map[string]any{"kind": "discover-round", "workers": workers, "classes": classes, "impl": map[string]any{"rounds": out}})
+}
+
 var namePool = []string{"llama3:8b", "llama3:70b", "phi4:latest", "Qwen2.5-Coder", "mistral", "a::b", "x*", "gemma2:9b",
 	// names a backend is free to use: namespaces, hub prefixes, non-ASCII letters whose case mappings change length
 	"hf.co/unsloth/Qwen3-32B-GGUF", "ȺȺȺ/m", "hf.co/ȺȾȺȾ/q", "İstanbul/model:İ", "模型/七", "ǅ/ǆ", "ﬁne/ﬂ", "a/b/c/d", "/", "//x", "org/", ":tag", "e\u0301/e\u0301"}
@@ -550,6 +663,13 @@ func main() {
 	}
 	types := []string{"ollama", "openai", "lm-studio", "vllm"}
 	// known shapes first
+	// whole rounds over several endpoints, fewer workers than endpoints, several endpoints answering badly at once
+	for _, workers := range []int{1, 2, 5} {
+		for _, classes := range [][]string{{"garbage", "garbage", "good"}, {"http500", "truncated", "wrongtype", "good"}, {"good", "emptybody", "garbage", "http500", "garbage", "truncated"}, {"good", "good", "good"}} {
+			discoverRoundCase(c, pf, workers, classes)
+			c.Count("discover-round")
+		}
+	}
 	discoverCase(c, pf, "openai", []round{{"good", []string{"a", "b"}}, {"garbage", nil}, {"truncated", []string{"c"}}, {"http500", nil}, {"emptylist", []string{}}, {"good", []string{"c"}}})
 	discoverCase(c, pf, "ollama", []round{{"good", []string{"x", "y"}}, {"nameless", []string{"", "z"}}, {"dup", []string{"z", "z", "w"}}, {"wrongtype", nil}, {"emptybody", nil}})
 	discoverCase(c, pf, "openai", []round{{"good", []string{"a"}}, {"oversized", []string{"big"}}, {"good", []string{"b"}}})
